@@ -7,7 +7,7 @@ from kirin.dialects import ilist
 from bloqade.shuttle import action, schedule, spec
 from bloqade.shuttle.prelude import move, tweezer
 
-from .asserts import assert_sorted
+from .asserts import assert_in_range, assert_sorted
 
 # Define type variables for generic programming
 NumX = TypeVar("NumX", bound=int)
@@ -69,6 +69,13 @@ def rearrange_impl(
     assert_sorted(dst_y)
 
     zone = spec.get_static_trap(zone_id="traps")
+
+    num_x = len(grid.get_xpos(zone))
+    num_y = len(grid.get_ypos(zone))
+    assert_in_range(src_x, num_x)
+    assert_in_range(src_y, num_y)
+    assert_in_range(dst_x, num_x)
+    assert_in_range(dst_y, num_y)
 
     start = grid.sub_grid(zone, src_x, src_y)
     end = grid.sub_grid(zone, dst_x, dst_y)
